@@ -96,6 +96,20 @@ Proof.
 Qed.
 Print Assumptions frame_slots_sound.
 
+(* the interpreter's entry shim: 16-byte aligned at the call of the handler, rsp restored, the
+   va_list it builds has the psABI register-save-area layout (integer register n at 8n, xmm<n> at
+   48+16n) and its overflow area is the caller's first stack argument *)
+Theorem interp_shim_frame_sound : forall E nres, E mod 16 = 8 -> 0 <= nres ->
+  (shim_rsp_at_call E nres) mod 16 = 0
+  /\ shim_rsp_at_ret E nres = E
+  /\ shim_overflow_arg_area E = E + 8
+  /\ (forall n, 0 <= n < 6 -> shim_pushed_gpr E n = shim_reg_save_area E + 8 * n)
+  /\ (forall n, 0 <= n < 8 -> shim_xmm_area E + 16 * n = shim_reg_save_area E + 48 + 16 * n)
+  /\ shim_results_addr E nres + 16 * nres <= shim_va_list_addr E
+  /\ shim_va_list_addr E + 24 <= shim_reg_save_area E.
+Proof. exact shim_frame. Qed.
+Print Assumptions interp_shim_frame_sound.
+
 (* MIR's call-used / callee-saved split agrees with the psABI: every psABI callee-saved register is
    either saved on use (rbx, r12-r15) or rsp/rbp, which the allocator never hands out and the
    prologue/epilogue maintain; nothing else is treated as preserved *)
